@@ -384,6 +384,8 @@ impl IntoIterator for Cell {
 
 impl Display for Cell {
     fn fmt(&self, f: &mut Formatter<'_>) -> std::fmt::Result {
+        #[cfg(marwood_verif)]
+        let _verif_depth = crate::vm::verif::depth::enter("fmt", "fmt");
         match self {
             Cell::Pair(car, cdr) => {
                 // sugar quote any list in the exact form (quote x)
